@@ -51,7 +51,7 @@ const TUPLE_SLICE: NativeMetaBuilder = NativeMetaBuilder::method("slice", Arity:
   .with_stack();
 
 const TUPLE_COLLECT: NativeMetaBuilder = NativeMetaBuilder::fun("collect", Arity::Fixed(1))
-  .with_params(&[ParameterBuilder::new("iter", ParameterKind::Object)]);
+  .with_params(&[ParameterBuilder::new("iter", ParameterKind::Enumerator)]);
 
 pub fn declare_tuple_class(hooks: &GcHooks, module: Ref<Module>) -> StdResult<()> {
   let class = class_inheritance(hooks, module, TUPLE_CLASS_NAME)?;
